@@ -398,3 +398,19 @@ theorem dreach_of_noTrig (body : σ → Resume → Burst ℚ σ) (hb : ∀ st rs
   induction hr with
   | init => exact DReach.init
   | step _ hs ih => exact DReach.step ih (stepDom_of_noTrig body hb fuel _) hs
+
+/-! ## small facts used by the plain-words corollaries -/
+
+theorem listMin_eq_none : ∀ (l : List Int), listMin l = none → l = []
+  | [], _ => rfl
+  | x :: xs, h => by
+    unfold listMin at h
+    cases h2 : listMin xs <;> rw [h2] at h
+    · cases h
+    · simp only at h; split at h <;> cases h
+
+theorem beq_preemptive_of_container {k : ResKind} (h : k = .container) : k ≠ .preemptive := by
+  rw [h]; simp
+
+theorem not_preemptive_of_store {k : ResKind} (h : isStoreKind k = true) : k ≠ .preemptive := by
+  intro hk; rw [hk] at h; exact absurd h (by decide)
